@@ -18,6 +18,7 @@
  * of the source tree.
  */
 #include <cstring>
+#include <cstdint>
 #include <utility>
 
 #include <tbox/base/assert.h>
@@ -107,7 +108,12 @@ bool Buffer::ensureWritableSize(size_t write_size)
         return true;
 
     } else {    //! 只有重新分配更多的空间才可以
-        size_t new_size = (write_index_ + write_size) << 1;  //! 两倍扩展
+        size_t need_size = write_index_ + write_size;
+        //! 防止 write_size 过大导致 need_size 或其两倍回绕
+        if (need_size < write_size || need_size > (SIZE_MAX >> 1))
+            return false;
+
+        size_t new_size = need_size << 1;  //! 两倍扩展
         uint8_t *p_buff = new uint8_t[new_size];
         if (p_buff == nullptr)
             return false;
@@ -127,7 +133,7 @@ bool Buffer::ensureWritableSize(size_t write_size)
 
 void Buffer::hasWritten(size_t write_size)
 {
-    if (write_index_ + write_size > buffer_size_) {
+    if (write_size > writableSize()) {
         write_index_ = buffer_size_;
     } else {
         write_index_ += write_size;
@@ -146,7 +152,7 @@ size_t Buffer::append(const void *p_data, size_t data_size)
 
 void Buffer::hasRead(size_t read_size)
 {
-    if (read_index_ + read_size > write_index_) {
+    if (read_size > readableSize()) {
         read_index_ = write_index_ = 0;
     } else {
         read_index_ += read_size;
